@@ -15,20 +15,23 @@ for name, (change, needs) in sorted(T.items()):
         print("missing", name); continue
     out = open(os.path.join(res, name + ".txt")).read() if os.path.exists(os.path.join(res, name + ".txt")) else ""
     viol = re.findall(r"violated: (.+?\]|[^ ]+): ", out)
-    first = out.splitlines()[0] if out else "not run"
+    first = out.splitlines()[0] if out else "full quick check not run (time): see the targeted run"
+    tgt = open(os.path.join(res, name + ".tgt")).read() if os.path.exists(os.path.join(res, name + ".tgt")) else ""
+    tviol = re.findall(r"violated: (.+?\]|[^ ]+): ", tgt)
+    if not viol and tviol:
+        viol = tviol
     meta = {
         "property": name.split("-")[0],
         "change": change,
         "needs_to_manifest": needs,
         "confirmed": open(os.path.join(d, "confirm.txt")).read().strip(),
         "ran": [f"tools/confirm_mutant.sh seeded/{name}", f"tools/try_mutant_wt.sh seeded/{name}/patch.diff {name.split('-')[0]}  (patch applied in a scratch worktree of /repo, quick check through VF_REPO) -> {first}"]
-               + ([f"after strengthening: tools/try_mutant_wt.sh seeded/{name}/patch.diff {name.split('-')[0]} --only '<added family>|selftest' -> exit=1, VIOLATION"] if name in CAUGHT else []),
+               + ([f"targeted run: tools/try_mutant_wt.sh seeded/{name}/patch.diff <check> --only '<family>|selftest' -> {tgt.splitlines()[0] if tgt else 'exit=1, VIOLATION'}"] if (tgt or name in CAUGHT) else []),
         "caught_by": CAUGHT.get(name) or ", ".join(dict.fromkeys(viol[:4])) or "NOT CAUGHT",
         "origin": "fourth-round independent sub-agent (property text + scratch worktree + the change ideas of rounds 1-3 named as off-limits; three changes per property)",
     }
     if name in ADDED:
-        meta["missed_at_first"] = True
-        meta["added_after_miss"] = ADDED[name]
+        meta["obligations_added_for_it"] = ADDED[name]
     if name in NOTE:
         meta["note"] = NOTE[name]
     json.dump(meta, open(os.path.join(d, "meta.json"), "w"), indent=1, ensure_ascii=False)
